@@ -89,16 +89,45 @@ __CPROVER_ensures(g_norm_fail ? (*status > U_ZERO_ERROR && *status != U_BUFFER_O
 __CPROVER_ensures((!g_norm_fail && g_norm_len < resultLength) ==> result[g_norm_len] == 0)
 ;
 
+/* pipeline monitor (only active in the cif_normalize job, g_pipe_on): order and modes of the normalisation steps */
+int g_pipe_on; unsigned g_pipe_n, g_fold_calls, g_fold_at; int g_pipe_first_mode, g_pipe_last_mode, g_pipe_last_terminate;
+#define PIPE_NORM_POST(mode, terminate) (!g_pipe_on || (g_pipe_n == OLD(g_pipe_n) + 1 && g_pipe_last_mode == (int)(mode) && g_pipe_last_terminate == (terminate) \
+        && g_pipe_first_mode == (OLD(g_pipe_n) == 0 ? (int)(mode) : OLD(g_pipe_first_mode))))
+
 static int cif_unicode_normalize(const UChar *src, int32_t srclen, UNormalizationMode mode, UChar **result, int32_t *result_length, int terminate)
-__CPROVER_requires(__CPROVER_r_ok(src, MAXN * sizeof(UChar)) && USTR_Q(src, g_len) && (srclen < 0 || (size_t)srclen <= g_len))
+__CPROVER_requires(srclen < 0 ? (__CPROVER_r_ok(src, MAXN * sizeof(UChar)) && USTR_Q(src, g_len)) : (srclen < MAXN && (srclen == 0 || __CPROVER_r_ok(src, (size_t)srclen * sizeof(UChar)))))
 __CPROVER_requires(__CPROVER_rw_ok(result, sizeof(*result)) && __CPROVER_rw_ok(result_length, sizeof(*result_length)))
 __CPROVER_requires(g_norm_len >= 0 && g_norm_len < MAXN - 1)
-__CPROVER_assigns(*result, *result_length)
+__CPROVER_assigns(*result, *result_length, g_pipe_n, g_pipe_first_mode, g_pipe_last_mode, g_pipe_last_terminate)
+__CPROVER_ensures(PIPE_NORM_POST(mode, terminate))
 __CPROVER_ensures(RET == CIF_OK || RET == CIF_MEMORY_ERROR || RET == CIF_ERROR)
 /* success: a buffer holding the g_norm_len normalised units, NUL-terminated when asked for, handed to the caller */
-__CPROVER_ensures(RET == CIF_OK ==> (*result_length == g_norm_len && __CPROVER_rw_ok(*result, ((size_t)g_norm_len + (terminate ? 1 : 0)) * sizeof(UChar))))
+__CPROVER_ensures(RET == CIF_OK ==> (*result_length == g_norm_len && __CPROVER_is_fresh(*result, ((size_t)g_norm_len + 1) * sizeof(UChar))))
 __CPROVER_ensures((RET == CIF_OK && terminate) ==> (*result)[g_norm_len] == 0)
 /* failure: outputs untouched (and, checked by --memory-leak-check in the harness, nothing left allocated) */
 __CPROVER_ensures(RET != CIF_OK ==> (*result == OLD(*result) && *result_length == OLD(*result_length)))
+;
+
+static int cif_fold_case(const UChar *src, int32_t srclen, UChar **result, int32_t *result_length)
+__CPROVER_requires(srclen >= 0 && srclen < MAXN && (srclen == 0 || __CPROVER_r_ok(src, (size_t)srclen * sizeof(UChar))))
+__CPROVER_requires(__CPROVER_rw_ok(result, sizeof(*result)) && __CPROVER_rw_ok(result_length, sizeof(*result_length)))
+__CPROVER_assigns(*result, *result_length, g_fold_calls, g_fold_at)
+__CPROVER_ensures(g_fold_calls == OLD(g_fold_calls) + 1 && g_fold_at == g_pipe_n)
+__CPROVER_ensures(RET == CIF_OK || RET == CIF_MEMORY_ERROR || RET == CIF_ERROR)
+__CPROVER_ensures(RET == CIF_OK ==> (*result_length >= 0 && *result_length < MAXN - 1 && __CPROVER_is_fresh(*result, ((size_t)*result_length + 1) * sizeof(UChar))))
+__CPROVER_ensures(RET != CIF_OK ==> (*result == OLD(*result) && *result_length == OLD(*result_length)))
+;
+
+/* C09: the normalised form of a code / data name is NFC(casefold(NFD(name))) - in that order - NUL-terminated, in fresh storage */
+int cif_normalize(const UChar *src, int32_t srclen, UChar **normalized)
+__CPROVER_requires(__CPROVER_r_ok(src, MAXN * sizeof(UChar)) && USTR_Q(src, g_len) && (srclen < 0 || (size_t)srclen <= g_len))
+__CPROVER_requires(normalized == NULL || __CPROVER_rw_ok(normalized, sizeof(*normalized)))
+__CPROVER_requires(g_pipe_on && g_pipe_n == 0 && g_fold_calls == 0)
+__CPROVER_assigns(g_pipe_n, g_pipe_first_mode, g_pipe_last_mode, g_pipe_last_terminate, g_fold_calls, g_fold_at; normalized != NULL: *normalized)
+__CPROVER_ensures(RET == CIF_OK || RET == CIF_MEMORY_ERROR || RET == CIF_ERROR)
+__CPROVER_ensures(RET == CIF_OK ==> (g_pipe_n == 2 && g_pipe_first_mode == (int)UNORM_NFD && g_fold_calls == 1 && g_fold_at == 1
+        && g_pipe_last_mode == (int)UNORM_NFC && g_pipe_last_terminate != 0))
+__CPROVER_ensures((RET == CIF_OK && normalized != NULL) ==> (*normalized != NULL && (*normalized)[g_norm_len] == 0))
+__CPROVER_ensures((RET != CIF_OK && normalized != NULL) ==> *normalized == OLD(*normalized))
 ;
 #endif
